@@ -104,7 +104,8 @@ func (fr *Frame) doCall(site ssa.Instruction, c *ssa.CallCommon, fv Val, args []
 		return fr.doCall0(site, c, fv, args, cond, st)
 	}
 	seq := fr.siteOrdinal(site, key)
-	keys := []string{fmt.Sprintf("%s#%d", key, seq), key + "#all"}
+	// #n: the n-th call site; #all: every call site (at least one must exist); #any: every call site, if any
+	keys := []string{fmt.Sprintf("%s#%d", key, seq), key + "#all", key + "#any"}
 	bind := func(cev *Eval) {
 		sig := c.Signature()
 		off := 0
@@ -374,6 +375,10 @@ func (fr *Frame) callContract(site ssa.Instruction, ct *Contract, key string, fn
 		vc.oblige("pre@"+key, fmt.Sprintf("%d.%d", seq, i), rq.Src, append(append([]string(nil), rq.Tags...), fr.ctTags()...), fr.posOf(site), cond, g)
 		// after checking, the precondition may be assumed
 		vc.assert(Imp(cond, g))
+	}
+	for _, df := range ct.Defines {
+		vc.assert(Imp(cond, ev.evalBool(df.E)))
+		vc.assume("definitional ghost function introduced by contract " + key + ": " + df.Src)
 	}
 	// havoc frame
 	fr.applyModifies(ev, ct, st, pre)
@@ -777,11 +782,38 @@ func (fr *Frame) havocClosureCaptures(c *ssa.CallCommon, st *State) {
 	}
 }
 
+// blockReaches reports whether block b is reachable from block a (a == b counts).
+func (fr *Frame) blockReaches(a, b *ssa.BasicBlock) bool {
+	if fr.reach == nil {
+		fr.reach = map[*ssa.BasicBlock]map[*ssa.BasicBlock]bool{}
+	}
+	m, ok := fr.reach[a]
+	if !ok {
+		m = map[*ssa.BasicBlock]bool{}
+		stack := []*ssa.BasicBlock{a}
+		for len(stack) > 0 {
+			n := stack[len(stack)-1]
+			stack = stack[:len(stack)-1]
+			if m[n] {
+				continue
+			}
+			m[n] = true
+			stack = append(stack, n.Succs...)
+		}
+		fr.reach[a] = m
+	}
+	return m[b]
+}
+
 // runDefers executes armed deferred calls in reverse order.
 func (fr *Frame) runDefers(cond T, st *State) T {
 	vc := fr.x.vc
 	for i := len(fr.defers) - 1; i >= 0; i-- {
 		d := fr.defers[i]
+		// a defer whose registration site cannot reach this block is never armed here
+		if fr.curBlock != nil && d.site != nil && d.site.Block() != nil && d.site.Parent() == fr.fn && !fr.blockReaches(d.site.Block(), fr.curBlock) {
+			continue
+		}
 		// is this defer armed on the current path? armed ∧ cond
 		armed := vc.name("armed", And(cond, d.armed))
 		if armed.S == "false" {
